@@ -150,6 +150,7 @@ def run_case(case):
     reach = ref.reachable_bodies()
 
     # ---- get_trie_nodes: exactly the reachable nodes ---------------------------------
+    impl("get_trie_nodes", get_trie_nodes, {root: db[root]}, root)  # a partial copy is asked first
     nodes = impl("get_trie_nodes", get_trie_nodes, db, root)
     expect("trie-nodes-exact", isinstance(nodes, tuple), lambda: f"get_trie_nodes returned {nodes!r}")
     expect_eq("trie-nodes-exact", Counter(nodes), Counter(ref.order), "get_trie_nodes(root) as a multiset")
